@@ -2,7 +2,8 @@
    Clock reads are explicit arguments n1 n2 (seconds since 0001-01-01T00:00:00, microseconds stripped). *)
 From CCT Require Import Prelude Hex Num Time Formats Json Auth Construct.
 From CCT.Gen Require Params.
-From CCT.proofs Require Import HexFacts SigFacts AuthFacts SchemaFacts FamilyFacts ConstructFacts.
+From CCT.proofs Require Import HexFacts SigFacts AuthFacts SchemaFacts FamilyFacts ConstructFacts TimeFacts.
+From Coq Require Import Lia.
 Open Scope N_scope.
 
 (* for ALL argument tuples: an argument error (TypeError / ValueError) or a result *)
@@ -58,6 +59,36 @@ Theorem C16_default_times : forall n1 n2 ty dl ver md,
     /\ dget c (U"expiration") = Some (VStr (fmt_utc (n2 + Params.root_expiry_days * 86400)%Z)).
 Proof. exact default_times. Qed.
 
+(* every instant of the years 1..9999 (seconds since 0001-01-01T00:00:00), formatted the way the library formats
+   it (isoformat() + "Z"), is accepted by the library's own date checker and read back as the same instant *)
+Theorem C16_formatted_time_roundtrip : forall t, (0 <= t < 315537897600)%Z ->
+  exists x, parse_utc (fmt_utc t) = Some x /\ instant_of x = t.
+Proof. exact parse_fmt_utc. Qed.
+
+(* with defaulted timestamp and expiration the builder succeeds whenever its other arguments are well formed *)
+Theorem C16_default_build_succeeds : forall n1 n2 ty dl ver,
+  (0 <= n1 < 315537897600)%Z -> (0 <= n2 + expiry_seconds < 315537897600)%Z ->
+  is_str ty = true -> natural ver -> delegations_ok (dflt dl (VDict [])) ->
+  exists md, build_delegating_metadata n1 n2 ty dl ver VNone VNone = Ok md.
+Proof.
+  intros n1 n2 ty dl ver H1 H2 Hty Hver Hdl. eexists. apply build_ok_iff. cbv zeta. cbn [dflt].
+  split; [exact Hty|]. split; [eexists; split; [reflexivity|apply fmt_utc_ok; exact H1]|].
+  split; [eexists; split; [reflexivity|apply fmt_utc_ok; exact H2]|]. split; [exact Hver|]. split; [exact Hdl|reflexivity].
+Qed.
+
+(* and then expires strictly after its timestamp, one expiry distance (365 days) plus the time between the two
+   clock reads later *)
+Theorem C16_default_expiry_strictly_later : forall n1 n2,
+  (0 <= n1 < 315537897600)%Z -> (0 <= n2 + expiry_seconds < 315537897600)%Z ->
+  exists x1 x2, parse_utc (fmt_utc n1) = Some x1 /\ parse_utc (fmt_utc (n2 + expiry_seconds)) = Some x2
+    /\ (instant_of x2 - instant_of x1 = 365 * 86400 + (n2 - n1))%Z
+    /\ (n1 <= n2 -> instant_of x1 < instant_of x2)%Z.
+Proof.
+  intros n1 n2 H1 H2. destruct (default_expiry_distance n1 n2 expiry_seconds H1 H2) as (x1 & x2 & E1 & E2 & Hd).
+  exists x1, x2. split; [exact E1|]. split; [exact E2|]. split; [rewrite Hd; reflexivity|].
+  intros Hle. assert (He : (expiry_seconds = 365 * 86400)%Z) by reflexivity. rewrite He in Hd. lia.
+Qed.
+
 (* the expiry distance the source declares, re-read from the AST on every run *)
 Theorem C16_expiry_distance_frozen : Params.root_expiry_days_src = Some 365%Z.
 Proof. reflexivity. Qed.
@@ -81,5 +112,8 @@ Print Assumptions C16_built_is_wellformed.
 Print Assumptions C16_built_verbatim.
 Print Assumptions C16_root_delegates_both.
 Print Assumptions C16_default_times.
+Print Assumptions C16_formatted_time_roundtrip.
+Print Assumptions C16_default_build_succeeds.
+Print Assumptions C16_default_expiry_strictly_later.
 Print Assumptions C16_expiry_distance_frozen.
 Print Assumptions C16_witness.
